@@ -5,12 +5,12 @@ from contracts import repartition as R
 PROPERTY = "C44"
 META = {
     "category": "proof",
-    "technique": "contract-based deductive verification of the boundary arithmetic (float rounding model, prefix sums) and of the task-graph builders RepartitionToFewer._layer / RepartitionToMore._layer, z3; bounded native execution of the extracted _layer methods on a partition model",
-    "text": "Kernel-level proof for all partition counts < 2**31: RepartitionToFewer boundaries have n_new+1 entries, start at 0, end at n_old and never decrease (so the range(start,end) lists tile the input partitions in order: lemma_tiling); RepartitionToMore._nsplits has one entry >= 1 per input partition and sums to the requested count. RepartitionToMore._layer: output partition numbers are exactly 0..sum(nsplits)-1 and piece jj of input partition i is output number psum(nsplits, i) + jj (an alias of the input when nsplits[i] == 1, else getitem(split_evenly(input i, nsplits[i]), jj)); RepartitionToFewer._layer: one output per pair of boundaries, concatenating exactly the inputs boundaries[i] .. boundaries[i+1]-1 in order. Together with the kernels: every input partition reaches exactly one place of the output, in order. RepartitionDivisions and RepartitionSize are executed natively on a stated partition model (bounded).",
-    "note": "Trusted: VC generator, z3, float model (2**-53 relative error per operation, integers <= 2**53 exact, no overflow). dask.dataframe cannot be imported here (pyarrow missing): verified text = AST of the source; E2 exec()s the extracted functions with stub globals (decorators and module import side effects dropped). pandas-level row movement (boundary_slice, concat, split_evenly) is ASSUMED per the stated partition model. RepartitionSize / from_pandas not covered.",
+    "technique": "contract-based deductive verification of the boundary arithmetic (float rounding model, prefix sums) and of the task-graph builders RepartitionToFewer._layer / RepartitionToMore._layer and of both phases of RepartitionDivisions._layer (force=False; loop invariants, termination), z3; bounded native execution of the extracted _layer methods on a partition model",
+    "text": "Kernel-level proof for all partition counts < 2**31: RepartitionToFewer boundaries have n_new+1 entries, start at 0, end at n_old and never decrease (so the range(start,end) lists tile the input partitions in order: lemma_tiling); RepartitionToMore._nsplits has one entry >= 1 per input partition and sums to the requested count. RepartitionToMore._layer: output partition numbers are exactly 0..sum(nsplits)-1 and piece jj of input partition i is output number psum(nsplits, i) + jj (an alias of the input when nsplits[i] == 1, else getitem(split_evenly(input i, nsplits[i]), jj)); RepartitionToFewer._layer: one output per pair of boundaries, concatenating exactly the inputs boundaries[i] .. boundaries[i+1]-1 in order. Together with the kernels: every input partition reaches exactly one place of the output, in order. RepartitionDivisions._layer with force=False, for all sorted old/new divisions with equal ends (labels modelled as integers): phase 1 -- split q is boundary_slice of ONE old partition src_q over [c[q], c[q+1]) with a[src_q] <= c[q] <= c[q+1] <= a[src_q+1], src starts at 0, ends at the last old partition and moves to the next partition only at that partition's boundary (so the splits tile every old partition), no new division falls strictly inside a split, the cut points are sorted and end at a[-1]; phase 2 -- the last split is closed on the right, every new partition j is the dummy empty slice / an alias / a concat of a run of CONSECUTIVE splits [ST[j], ST[j+1]) with ST[0] = 0 and ST[-1] = k (every split used exactly once, in order), and each split of run j lies inside [b[j], b[j+1]]; all loops terminate. RepartitionDivisions with force=True and RepartitionSize are executed natively on a stated partition model (bounded).",
+    "note": "Trusted: VC generator, z3, float model (2**-53 relative error per operation, integers <= 2**53 exact, no overflow). dask.dataframe cannot be imported here (pyarrow missing): verified text = AST of the source; E2 exec()s the extracted functions with stub globals (decorators and module import side effects dropped). pandas-level row movement (boundary_slice, concat, split_evenly) is ASSUMED per the stated partition model. RepartitionSize / from_pandas / force=True not covered by proofs.",
     "design_ref": "DESIGN.md §5.11",
 }
-MODULES = ["contracts.lemmas", "contracts.repartition"]
+MODULES = ["contracts.lemmas", "contracts.repartition", "contracts.repartdiv"]
 ONLY = {"contracts.lemmas": ["lemma_divmod", "lemma_psum_const", "lemma_tiling"]}
 LEVEL = "proof"
 EXPLANATION = "kernel proof of the boundary arithmetic + bounded native runs of the extracted layer builders"
@@ -28,10 +28,13 @@ def replay_native(native):
     return repart_native.replay(native)
 
 
-NATIVE_COVERS = {"RepartitionToMore._layer": ["RepartitionToMore._layer", "_nsplits"], "RepartitionToFewer._layer": ["_compute_partition_boundaries"], "RepartitionToFewer._compute_partition_boundaries": ["_compute_partition_boundaries"], "RepartitionToMore._nsplits": ["_nsplits"], "_clean_new_division_boundaries": ["_compute_partition_boundaries"]}
+NATIVE_COVERS = {"RepartitionToMore._layer": ["RepartitionToMore._layer", "_nsplits"], "RepartitionToFewer._layer": ["_compute_partition_boundaries"], "RepartitionToFewer._compute_partition_boundaries": ["_compute_partition_boundaries"], "RepartitionToMore._nsplits": ["_nsplits"], "RepartitionDivisions._layer[splits]": ["RepartitionDivisions._layer"], "RepartitionDivisions._layer[outputs]": ["RepartitionDivisions._layer"], "RepartitionDivisions._layer._is_single_last_div": ["RepartitionDivisions._layer"], "_clean_new_division_boundaries": ["_compute_partition_boundaries"]}
 
 
 # thorough tier: deliberate edits that must turn an obligation red (applied to a scratch copy, never to /repo)
-MUTATIONS = [('contracts.repartition', 'RepartitionToFewer._layer', 'dask/dataframe/dask_expr/_repartition.py', '                [(self.frame._name, j) for j in range(start, end)],', '                [(self.frame._name, j) for j in range(start, end - 1)],'),
+MUTATIONS = [('contracts.repartdiv', 'RepartitionDivisions._layer[splits]', 'dask/dataframe/dask_expr/_repartition.py', '                d[(out1, k)] = (methods.boundary_slice, (name, i - 1), low, b[j], False)\n                low = b[j]\n                j += 1', '                d[(out1, k)] = (methods.boundary_slice, (name, i - 1), low, b[j], False)\n                low = a[i]\n                j += 1'),
+             ('contracts.repartdiv', 'RepartitionDivisions._layer[outputs]', 'dask/dataframe/dask_expr/_repartition.py', '            while c[i] < b[j]:', '            while c[i] <= b[j] and i < k:'),
+             ('contracts.repartdiv', 'RepartitionDivisions._layer[splits]', 'dask/dataframe/dask_expr/_repartition.py', '                if len(a) == i + 1 or a[i] < a[i + 1]:\n                    j += 1', '                j += 1'),
+             ('contracts.repartition', 'RepartitionToFewer._layer', 'dask/dataframe/dask_expr/_repartition.py', '                [(self.frame._name, j) for j in range(start, end)],', '                [(self.frame._name, j) for j in range(start, end - 1)],'),
              ('contracts.repartition', 'RepartitionToMore._layer', 'dask/dataframe/dask_expr/_repartition.py', '        for i, k in enumerate(nsplits):\n            if k == 1:\n                dsk[new_name, j] = (df._name, i)\n                j += 1', '        for i, k in enumerate(nsplits):\n            if k == 1:\n                dsk[new_name, j] = (df._name, i)'),
              ('contracts.repartition', 'RepartitionToMore._nsplits', 'dask/dataframe/dask_expr/_repartition.py', '        nsplits = [div] * df.npartitions', '        nsplits = [div] * (df.npartitions - 1) + [0]'), ('contracts.repartition', '_clean_new_division_boundaries', 'dask/dataframe/dask_expr/_repartition.py', '    if new_partitions_boundaries[-1] < frame_npartitions:', '    if new_partitions_boundaries[-1] > frame_npartitions:')]
